@@ -236,7 +236,9 @@ Section Monitor.
             (if n <? maxTransmissions then (if t' + p_rekey + jmax + hi <? t then [2] else [])
              else if no_giveup m then (if t' + p_rekey + jmax + hi <? t then [2] else [])
              else if m_pka m =? 0 then [3]
-             else (if t' + N.max (p_rekey + jmax) (m_pka m * sec) + hi <? t then [2] else []))
+             (* after the give-up the persistent keepalive starts the next cycle one interval after the
+                last transmission: clause 8 *)
+             else (if t' + N.max (p_rekey + jmax) (m_pka m * sec) + hi <? t then [8] else []))
         | None => []
         end
       else [] in
@@ -294,7 +296,7 @@ Section Monitor.
          if (n <? maxTransmissions) || no_giveup m
          then (if t' + p_rekey + jmax + hi <? T then [2] else [])
          else if m_pka m =? 0 then []
-         else (if t' + N.max (p_rekey + jmax) (m_pka m * sec) + hi <? T then [2] else [])
+         else (if t' + N.max (p_rekey + jmax) (m_pka m * sec) + hi <? T then [8] else [])
      | None => []
      end) ++
     (match recv_due m with Some d => if d + hi <? T then [4] else [] | None => [] end) ++
